@@ -143,7 +143,13 @@ def server_case(rng, stats, length, pid):
         if pid == "C03" and data and rng.chance(1, 5):
             data = GF.mutate_stream(rng, data)      # the stream may desynchronise from here on: that is the point
             bump(stats, "mutated_inputs")
-        ops.append(f"srv.in {rand_now(rng, st)} {part(rng, len(data))} {hexb(data)}")
+        now = rand_now(rng, st)
+        if pid == "C15" and data and len(data) < 3000:
+            ops.append(f"!sess.split s {rng.choice(['all', '1'])} {part(rng, len(data))} {now} {hexb(data)}")
+            if rng.chance(1, 3):
+                md = GF.mutate_stream(rng, data)
+                ops.append(f"!sess.split s {part(rng, len(md))} {part(rng, len(md))} {now} {hexb(md)}")
+        ops.append(f"srv.in {now} {part(rng, len(data))} {hexb(data)}")
 
     # mostly-valid prefix of random depth, so that walks reach the deep states (connected, publishing, playing)
     depth = rng.choice([0, 1, 2, 3, 4, 5, 5, 5, 5, 5])
@@ -321,7 +327,13 @@ def client_case(rng, stats, length, pid):
         if pid == "C03" and data and rng.chance(1, 5):
             data = GF.mutate_stream(rng, data)
             bump(stats, "mutated_inputs")
-        ops.append(f"cli.in {rand_now(rng, st)} {part(rng, len(data))} {hexb(data)}")
+        now = rand_now(rng, st)
+        if pid == "C15" and data and len(data) < 3000:
+            ops.append(f"!sess.split c {rng.choice(['all', '1'])} {part(rng, len(data))} {now} {hexb(data)}")
+            if rng.chance(1, 3):
+                md = GF.mutate_stream(rng, data)
+                ops.append(f"!sess.split c {part(rng, len(md))} {part(rng, len(md))} {now} {hexb(md)}")
+        ops.append(f"cli.in {now} {part(rng, len(data))} {hexb(data)}")
 
     def pick_tid():
         k = rng.below(6)
